@@ -44,7 +44,7 @@ P = {
         "name": "schema", "pkg": "./internal/rules/mechanisms", "test": "TestVerifC20Schema",
         "overlay": {"internal/rules/mechanisms/zz_verif_c20_schema_test.go": "c20/c20_schema_test.go"},
         "eval_module": "Run.Eval_C20", "check_term": "check_schema fixed_F1a fixed_F1b",
-        "n_quick": 0, "n_thorough": 0, "findings": {1: "C20-F1c"}, "env": {"VERIF_C20_PROBES": PROBES},
+        "n_quick": 0, "n_thorough": 0, "findings": {}, "env": {"VERIF_C20_PROBES": PROBES},
         "escalate": False,
     }],
     "generators": [gen_schema_tables],
@@ -76,8 +76,8 @@ P = {
                   "underscore, upper case) is read back as the path it names; merge panics exactly on a container/other-kind "
                   "clash reached through nodes of equal kind and otherwise shows later-wins per leaf; the evaluator's finite "
                   "domain check is proved sound for the theorems' domain.  The schema/loader agreement is a finite vm_compute statement over tables regenerated on every run from "
-                  "schema/config.schema.json and the loader's type registries/config structs, with the 10 disagreeing rows recorded "
-                  "as C20-F1 in two groups (F1a schema wrong, F1b loader does not validate), each with its own repair flag.  The model is tied to the code by running both on ~1200 (quick) / 30000 (thorough) generated loads per "
+                  "schema/config.schema.json and the loader's type registries/config structs, nested option objects included (endpoint, assertions, subject, ...: ~160 option rows; open objects as a pseudo option "
+                  "`<any>`), with the disagreeing rows recorded as C20-F1 in groups a, b, c (all fixed), each with its own repair flag.  The model is tied to the code by running both on ~1200 (quick) / 30000 (thorough) generated loads per "
                   "run, now ~1000 quick (every observed outcome over 6-30 repetitions must be an outcome of the model for some iteration order) and "
                   "by replaying ~60 table-derived probes through the real schema validator and the real mechanism loader.",
     "level_note": "Trusted: Coq kernel/vm_compute; the correspondence harness (generators, decode-hook capture of the merged tree, "
@@ -85,7 +85,8 @@ P = {
                   "pre-image; mapstructure decoding into the Configuration struct is not modelled (the observable is the tree handed "
                   "to the decoder); the translation of the JSON schema and of the Go config structs into the tables "
                   "(harness/tools/schema, go/ast + python) is trusted and cross-checked by the dynamic probes.  Open findings: "
-                  "C20-F1 (schema/loader disagreements; candidate repairs fixes/C20-F1a.diff, fixes/C20-F1b.diff), "
+                  "C20-F1c (schema/loader disagreements inside nested option objects, found when the tables were widened; candidate "
+                  "repair fixes/C20-F1c.diff, schema only; groups a and b are fixed by 80621e4 / 6c5864d), "
                   "C20-F4 (nested structure inside a list element stays a flat dotted key; fixes/C20-F4.diff not applicable because it "
                   "edits a repo unit test that pins the flat key).  Fixed: C20-F3 (0f39207), general theorem proved for the repaired "
                   "code; the pinned old behaviour is C20_F3_pinned_refuted.",
